@@ -64,25 +64,35 @@ def gen_table():
     return rc, out.strip()
 
 
-def source_tie(run):
-    """Regenerate coq/gen/SrcGen.v from the current mz.rs / poisson.rs constants and check (kernel, `reflexivity`) that the
-    hand-written models are that translation.  Returns True when established.  A refusal or a mismatch is not a violation
-    by itself (a harmless rewrite can cause it): the differential correspondence remains the tie, searched 5x deeper."""
-    rc, out, _ = sh([sys.executable, os.path.join(VERIF, "tools", "gen_src.py")], cwd=VERIF, timeout=120)
-    detail = out.strip().splitlines()[-1] if out.strip() else ""
-    ok = rc == 0
-    if ok:
-        rc2, out2, _ = make(["proofs/SrcTie.vo"])
-        ok = rc2 == 0
-        if not ok:
-            detail = "proofs/SrcTie.v no longer checks: " + "\n".join(out2.strip().splitlines()[-6:])
-    run.cov["source_level_tie"] = {"established": ok, "what": "coq/model/Mz.v (PROTON, mass_charge_ratio, neutral_mass) and Poisson.v's NEUTRON_SHIFT / "
-                                   "LAMBDA_FACTOR are definitionally the translation of the current src/mz.rs and poisson.rs constants (tools/gen_src.py)",
-                                   "detail": detail}
-    if ok:
-        run.oblige("source-level tie: the mz.rs model is the translation of the current source (regenerated, reflexivity)", True, detail)
-    elif run.scale == 1:
-        raise ExtendSearch({"broken": "source-level tie", "detail": detail})
+def source_tie(run, poisson=False):
+    """Regenerate coq/gen/SrcGen.v (mz.rs, constants) -- and with poisson=True coq/gen/PoissonGen.v (the four functions of
+    poisson.rs, loops included) -- from the current source and check in the kernel that the hand-written models ARE those
+    translations (SrcTie.v by reflexivity, PoissonTie.v by loop-invariant lemmas).  Returns True when established.  A refusal
+    or a mismatch is not a violation by itself (a harmless rewrite can cause it): the differential correspondence remains the
+    tie and is then searched 5x deeper."""
+    def one(script, target, what):
+        rc, out, _ = sh([sys.executable, os.path.join(VERIF, "tools", script)], cwd=VERIF, timeout=120)
+        detail = out.strip().splitlines()[-1] if out.strip() else ""
+        ok = rc == 0
+        if ok:
+            rc2, out2, _ = make([target])
+            ok = rc2 == 0
+            if not ok:
+                detail = "%s no longer checks: " % target + "\n".join(out2.strip().splitlines()[-6:])
+        return {"established": ok, "what": what, "detail": detail}
+    res = {"mz": one("gen_src.py", "proofs/SrcTie.vo", "coq/model/Mz.v (PROTON, mass_charge_ratio, neutral_mass) and Poisson.v's NEUTRON_SHIFT / LAMBDA_FACTOR "
+                     "are definitionally the translation of the current src/mz.rs and poisson.rs constants (tools/gen_src.py)")}
+    if poisson:
+        res["poisson"] = one("gen_poisson.py", "proofs/PoissonTie.vo", "coq/model/Poisson.v's poisson_approximation(_impl) and poisson_n(_impl) equal, for every "
+                             "numeric interpretation and all arguments, the state-passing translation of the current src/isotopic_pattern/poisson.rs "
+                             "(tools/gen_poisson.py -> coq/gen/PoissonGen.v; proofs/PoissonTie.v)")
+    run.cov["source_level_tie"] = res
+    ok = all(r["established"] for r in res.values())
+    for k, r in res.items():
+        if r["established"]:
+            run.oblige("source-level tie (%s): the model is the translation of the current source, regenerated and re-proved" % k, True, r["detail"])
+    if not ok and run.scale == 1:
+        raise ExtendSearch({"broken": "source-level tie", "detail": "; ".join(r["detail"] for r in res.values() if not r["established"])})
     return ok
 
 
